@@ -208,7 +208,61 @@ def compared(mode, script):
     return mode != 3 and 5 not in codecs_of(script) and not any(c[0] in UNMODELLED_OPS for c in script)
 
 
+V_READY = 16     # variant bit: the fetcher's future is ready when the resource is created
+
+
+def ready_gates(cmd, first):
+    """(number of case-controlled futures cmd adds, those among them that are ready from the start)"""
+    if cmd[0] == 2:
+        return 1, []
+    if cmd[0] == 12:
+        if cmd[1] == 2:
+            return 0, []
+        return 1, ([first] if len(cmd) > 4 and cmd[4] & V_READY else [])
+    if cmd[0] == 15:
+        n, ready = [0], []
+
+        def walk(children):
+            for ch in children:
+                if ch[0] == 2 and ch[1] != 2:
+                    if ch[4] & V_READY:
+                        ready.append(first + n[0])
+                    n[0] += 1
+                elif ch[0] == 3:
+                    walk(ch[1])
+        walk(cmd[2])
+        return n[0], ready
+    return 0, []
+
+
+def with_ready(script):
+    """a future that is ready from the start is, for everything the context can observe, one that
+    completes right after the command that created it: say so in the script (the harness really
+    creates the resource with a finished future)"""
+    out = []
+    n = 0
+    for cmd in script:
+        out.append(cmd)
+        k, ready = ready_gates(cmd, n)
+        n += k
+        out.extend([7, g] for g in ready)
+    return out
+
+
+def ready_ok(script):
+    n = 0
+    i = 0
+    while i < len(script):
+        k, ready = ready_gates(script[i], n)
+        n += k
+        if script[i + 1:i + 1 + len(ready)] != [[7, g] for g in ready]:
+            return False
+        i += 1 + len(ready)
+    return True
+
+
 def finish(mode, script, kind):
+    script = with_ready(script)
     chars = set()
     for s in strings_of(script):
         chars.update(s)
@@ -273,7 +327,7 @@ def res_cmd(rng, payload, codec=None, kind=None):
         codec = 5 if rng.random() < 0.04 else rng.choice([0, 0, 1, 1, 2, 3, 4, 6])
     if kind is None:
         kind = rng.choice([0, 1, 2])
-    return [12, kind, codec, cps(payload), rng.randint(0, 15)]
+    return [12, kind, codec, cps(payload), rng.randint(0, 63)]
 
 
 def gen_resource(rng):
@@ -953,7 +1007,7 @@ def valid_children(children, depth=0):
                 return False
         elif ch[0] == 2:
             if len(ch) != 5 or ch[1] not in (0, 1, 2) or ch[2] not in CODECS or not isinstance(ch[3], list) \
-                    or not (isinstance(ch[4], int) and 0 <= ch[4] < 16):
+                    or not (isinstance(ch[4], int) and 0 <= ch[4] < 64):
                 return False
         elif ch[0] == 3:
             if len(ch) != 2 or not valid_children(ch[1], depth + 1):
@@ -961,6 +1015,21 @@ def valid_children(children, depth=0):
         else:
             return False
     return True
+
+
+def count_ids(children):
+    """ids an <ErrorBoundary/> with these children takes for itself, nested boundaries and errors"""
+    n = 1
+    for ch in children:
+        if ch[0] == 1:
+            n += 1
+        elif ch[0] == 3:
+            n += count_ids(ch[1])
+    return n
+
+
+def count_resources(children):
+    return sum(1 if ch[0] == 2 else count_resources(ch[1]) if ch[0] == 3 else 0 for ch in children)
 
 
 def valid_case(item):
@@ -977,10 +1046,29 @@ def valid_case(item):
         arity = {0: (1,), 1: (2,), 2: (3,), 3: (4,), 4: (2,), 5: (2,), 6: (1,), 7: (2,), 8: (1,), 9: (2,), 10: (2,),
                  12: (4, 5), 14: (2,), 15: (3,), 16: (1,), 17: (1,), 18: (1,)}
         chars = set()
+        n_ids = 0            # ids handed out to the script so far: what (1 k) may refer to
+        consumers = 0
+        literal_write = False
         for cmd in script:
             if not isinstance(cmd, list) or not cmd or cmd[0] not in arity or len(cmd) not in arity[cmd[0]]:
                 return False
             op = cmd[0]
+            if op == 2:
+                # data is written under an id next_id handed out, or under a number no counter reaches
+                a = cmd[1]
+                if isinstance(a, list) and len(a) == 2 and a[0] == 1 and not a[1] < n_ids:
+                    return False
+                if isinstance(a, list) and len(a) == 2 and a[0] == 0:
+                    literal_write = min(a[1], literal_write) if literal_write is not False else a[1]
+            if op == 0:
+                n_ids += 1
+                consumers += 1
+            elif op == 12:
+                consumers += 1
+            elif op == 15 and valid_children(cmd[2]):
+                k = count_ids(cmd[2])
+                n_ids += k
+                consumers += k + count_resources(cmd[2])
             if op == 1 and (cmd[1] not in (0, 1) or (mode != 1 and cmd[1] == 0)):
                 return False
             if op in (14, 15) and mode in (2, 3):
@@ -995,11 +1083,13 @@ def valid_case(item):
             if op == 7 and not (isinstance(cmd[1], int) and 0 <= cmd[1] < 1000):
                 return False
             if op == 12 and (cmd[1] not in (0, 1, 2) or cmd[2] not in CODECS
-                             or (len(cmd) == 5 and not (isinstance(cmd[4], int) and 0 <= cmd[4] < 16))):
+                             or (len(cmd) == 5 and not (isinstance(cmd[4], int) and 0 <= cmd[4] < 64))):
                 return False
             if op == 15 and (cmd[1] not in (0, 1, 2) or not valid_children(cmd[2])):
                 return False
-        if bool(item.get("compare", True)) != compared(mode, script):
+        if bool(item.get("compare", True)) != compared(mode, script) or not ready_ok(script):
+            return False
+        if literal_write is not False and literal_write < consumers:
             return False
         for s in strings_of(script):
             if not isinstance(s, list):
@@ -1071,6 +1161,10 @@ def describe_res(kind, codec, payload, variant):
         v.append("blocking")
     if variant & 8:
         v.append("arena-in-browser")
+    if variant & 16:
+        v.append("ready-at-once")
+    if variant & 32:
+        v.append("browser-context-by-Default")
     return "%s<%s>%s(%r)" % (KIND_NAMES.get(kind, "?"), CODEC_NAMES.get(codec, "?"),
                              ("[" + ",".join(v) + "]") if v else "", s_of(payload)[:60])
 
